@@ -895,7 +895,7 @@ parse_site_table_dict(tsk_site_table_t *table, PyObject *dict, bool clear_table)
         }
         metadata_data = PyArray_DATA(metadata_array);
         metadata_offset_array = table_read_offset_array(
-            metadata_offset_input, &num_rows, metadata_length, false);
+            metadata_offset_input, &num_rows, metadata_length, true);
         if (metadata_offset_array == NULL) {
             goto out;
         }
@@ -1062,7 +1062,7 @@ parse_mutation_table_dict(tsk_mutation_table_t *table, PyObject *dict, bool clea
         }
         metadata_data = PyArray_DATA(metadata_array);
         metadata_offset_array = table_read_offset_array(
-            metadata_offset_input, &num_rows, metadata_length, false);
+            metadata_offset_input, &num_rows, metadata_length, true);
         if (metadata_offset_array == NULL) {
             goto out;
         }
